@@ -389,4 +389,17 @@ CHECKS = {
                      "that precedes the acknowledgement is asserted from system-call traces in C05"],
         technique="generated concurrent programs with schedule-independent per-operation oracle",
     ),
+    "C26": dict(
+        test="TestC26", level="exploration", shards=16, race=True,
+        tiers=dict(quick=dict(checks=8, timeout=900), thorough=dict(checks=400, timeout=3400)),
+        rule="rapid concurrent programs on the real GRPCReplicationServer + Sender with fake stream objects (peer address in "
+             "the context; Send can fail on demand = replica gone, or block = replica not reading): 1-6 streams opening and "
+             "closing at generated message indices while the sender fans out 50-400 tagged messages (1200-2000 with a slow "
+             "replica), built with the race detector; oracle: no panic/fatal error/data race, the fan-out finishes within "
+             "20 s (the master does not block), every stream receives a gap-free in-order run of messages, a stream that "
+             "stays connected receives everything from its connection to the last message; non-trivial = >=2 streams with a "
+             "close overlapping the fan-out",
+        assumptions=["schedules are sampled; the race detector reports races on executed paths only"],
+        technique="generated concurrent programs under the Go race detector, schedule-independent oracle",
+    ),
 }
